@@ -144,6 +144,72 @@ def case(cfg, trims):
     return out
 
 
+def big_history_case(seed, N, T, real):
+    """posterior() / evidence() on a stored history of more than 2**17 rows (blockwise or chunked evaluation paths).
+    real=False: the history is committed through the public StateManager API of a live sampler and only posterior() is judged
+    (evidence() reports what the last reweighting step recorded); real=True: an actual run with a large particle count."""
+    from tvf import targets as TG
+    bad = []
+    rng = np.random.default_rng(seed)
+    if real:
+        cfg = dict(target="gauss2", kernel="tpcn", resample="syst", clustering=False, mode="vec", N=N, n_total=N * T, seed=seed % 10 ** 6)
+        s, t, like, pt = runs.run(cfg)
+        H = runs.history(s)
+        lwu, lwn, lz, ess = mis_ref(H["logl"], H["beta"], H["logz"], 1.0)
+        ev = float(s.evidence()[0])
+        if abs(ev - float(lz)) > 1e-8 * (1 + abs(float(lz))):
+            bad.append(("post-evidence", f"history of {sum(len(l) for l in H['logl'])} rows: evidence()={ev!r} but the MIS evidence recomputed from the stored "
+                        f"history at beta=1 is {float(lz)!r}"))
+        if float(ess) < cfg["n_total"] * (1 - 1e-9):
+            bad.append(("post-ess", f"large run returned with reference ESS {float(ess):.1f} < n_total={cfg['n_total']}"))
+    else:
+        cfg = dict(target="gauss2", kernel="tpcn", resample="syst", clustering=False, mode="vec", N=64, n_total=64, seed=seed % 10 ** 6)
+        np.random.seed(cfg["seed"])
+        s, t, like, pt = runs.build(cfg)
+        s._core._initialize_fresh()
+        sm = s.state
+        betas = np.concatenate([[0.0, 0.0], np.sort(rng.random(T - 3)), [1.0]])
+        logz = np.zeros(T)
+        Hl = []
+        for k in range(T):
+            n = N + int(rng.integers(0, 7))
+            u = rng.random((n, 2)) if betas[k] == 0 else np.clip(0.5 + 0.1 * rng.standard_normal((n, 2)), 0.001, 0.999)
+            x = pt(u)
+            l = np.asarray(t.loglike(x), float)
+            Hl.append(l)
+            if k:
+                logz[k] = float(mis_ref(Hl[:k], betas[:k], logz[:k], betas[k])[2]) if k < 6 else logz[k - 1] + 0.01 * rng.standard_normal()
+            sm.update_current(dict(u=u, x=x, logl=l, beta=float(betas[k]), logz=float(logz[k]), iter=k + 1, calls=(k + 1) * N, steps=1,
+                                   efficiency=1.0, ess=float(N), acceptance=0.3))
+            sm.commit_current_to_history()
+        H = runs.history(s)
+        lwu, lwn, lz, ess = mis_ref(H["logl"], H["beta"], H["logz"], 1.0)
+    xflat = np.concatenate(H["x"])
+    lflat = np.concatenate(H["logl"])
+    rows = len(lflat)
+    wref = np.exp(np.asarray(lwn, dtype=np.longdouble)).astype(float)
+    wref /= wref.sum()
+    for kw in (dict(trim_importance_weights=False), dict(trim_importance_weights=False, return_logw=True), dict()):
+        res = s.posterior(**kw)
+        x, w, l = res[0], res[1], res[2]
+        if not kw.get("trim_importance_weights", True):
+            if len(w) != rows or x.tobytes() != xflat.tobytes() or l.tobytes() != lflat.tobytes():
+                bad.append(("posterior-lengths", f"posterior({kw}) on a history of {rows} rows does not return the stored rows in order"))
+                continue
+            if not np.allclose(w, wref, rtol=1e-7, atol=1e-300):
+                j = int(np.argmax(np.abs(w - wref)))
+                bad.append(("posterior-weights-misaligned", f"posterior({kw}) on a history of {rows} rows: weights are not the normalised MIS weights of the rows "
+                            f"(row {j}: {w[j]!r} vs {wref[j]!r}; rows beyond {rows - rows % 2 ** 17} are the last partial block of 2**17)"))
+            if kw.get("return_logw"):
+                d = np.asarray(res[-1], float) - np.asarray(lwn, float)
+                if np.max(d) - np.min(d) > 1e-8:
+                    bad.append(("posterior-logw-misaligned", f"posterior(return_logw=True) on {rows} rows: log-weights differ from the reference by a non-constant"))
+        else:
+            if abs(float(np.sum(w)) - 1) > 1e-9 or np.any(w < 0):
+                bad.append(("posterior-weights", f"posterior() on {rows} rows: weights sum {float(np.sum(w))!r}"))
+    return dict(bad=bad, rows=rows, real=real)
+
+
 def run():
     ck = Check("C12")
     rng = ck.rng("lattice")
@@ -178,8 +244,23 @@ def run():
                 continue
             seen.add((key,))
             ck.violation(key, what, dict(cfg=cfg))
+    bt = [("tvf.checks.c12:big_history_case", dict(seed=ck.subseed("big", 0), N=7000, T=20, real=False), None)]
+    if not ck.quick:
+        bt += [("tvf.checks.c12:big_history_case", dict(seed=ck.subseed("big", 1), N=2 ** 15 + 3, T=9, real=False), None),
+               ("tvf.checks.c12:big_history_case", dict(seed=ck.subseed("big", 2), N=6000, T=20, real=True), None)]
+    for i, st, val in farm.run(bt, timeout=2400, progress="C12-big"):
+        kw = bt[i][1]
+        if st != "ok":
+            ck.inconc(f"big history case {kw}: {st} {str(val)[-300:]}")
+            continue
+        ck.case(dict(big=kw, rows=val["rows"]), nontrivial=val["rows"] > 2 ** 17)
+        ck.event("posterior() judged on a stored history of more than 2**17 rows", int(val["rows"] > 2 ** 17))
+        if val["real"]:
+            ck.event("real runs with more than 2**17 stored rows (evidence recomputed)", int(val["rows"] > 2 ** 17))
+        for key, what in val["bad"]:
+            ck.violation(key, what, dict(big=kw))
     ck.require_events("completed runs with postconditions checked", "posterior() option combinations called",
-                      "posterior rows identified through the evaluation log")
+                      "posterior rows identified through the evaluation log", "posterior() judged on a stored history of more than 2**17 rows")
     return ck.finish(
         rule="pairwise (quick, first 8 rows) / 3-wise (thorough) covering array over target x kernel x resampler x clustering x "
              "vec/scalar/blobs x metric mode x N x n_total/N; after each completed run all 16 posterior() flag combinations x trimming "
